@@ -3,10 +3,10 @@ From Plush Require Import model.Bytes model.Ast model.Value model.Eval proofs.Ev
 
 (* the tolerant sites (!, ==, !=, &&, ||, if / else-if conditions) let exactly one
    kind of error through: an unwrapped unknown identifier *)
-Theorem C05_tolerate_spec : forall b r,
-  tolerate b r =
+Theorem C05_tolerate_spec : forall b o r,
+  tolerate b o r =
   match r with
-  | RErr (EUnknown n) s => if b then ROk (VNil, s) else RErr (EUnknown n) s
+  | RErr (EUnknown n) s => if b then ROk (VNil, with_stmt s o) else RErr (EUnknown n) s
   | x => x
   end.
 Proof. exact tolerate_spec. Qed.
